@@ -53,7 +53,7 @@ _ERASE = re.compile(
     r"option::Option::<&mut T>::(cloned|copied)|"
     r"result::Result::<T, E>::(unwrap|expect|as_ref|as_mut)|result::Result::<&T, E>::(copied|cloned)|result::Result::<&mut T, E>::(copied|cloned)|"
     r"sync::(RwLock|Mutex|poison::rwlock::RwLock|poison::mutex::Mutex)::<T>::(read|write|lock)|"
-    r"sync::Arc::<T(, A)?>::(as_ref|clone)|slice::<impl \[T\]>::iter|"
+    r"sync::Arc::<T(, A)?>::(as_ref|clone)|slice::<impl \[T\]>::iter|vec::Vec::<T, A>::(as_slice|as_mut_slice)|"
     r"iter::(IntoIterator::into_iter|Iterator::copied|Iterator::cloned))$")
 
 # tag transfer tables for std calls: path regex -> function(tag variant of arg0) -> variant of result
